@@ -21,7 +21,7 @@ func init() {
 				Harness{Fn: "ZZC03LexSeq", Quick: p("M", 4), Thorough: p("M", 5, "A", 13), ThoroughBudget: 20 * time.Minute, Expect: []string{"eof", "illegal", "ident", "string", "witness:end"}},
 			),
 			parserUnit([]string{"parser/c03p.go"},
-				Harness{Fn: "ZZC03Parser", Quick: p("E", 1, "INS", 26), Thorough: p("E", 2, "INS", 41), ThoroughBudget: 20 * time.Minute, Expect: []string{"accepted", "rejected", "witness:end"}},
+				Harness{Fn: "ZZC03Parser", Quick: p("E", 1, "INS", 28), Thorough: p("E", 2, "INS", 45), ThoroughBudget: 20 * time.Minute, Expect: []string{"accepted", "rejected", "witness:end"}},
 				Harness{Fn: "ZZC03Locate", Quick: p("K", 3), Thorough: p("K", 4), Expect: []string{"locate-ok", "witness:end"}},
 				Harness{Fn: "ZZC03Tokens", Quick: p("L", 2), Thorough: p("L", 3), ThoroughBudget: 25 * time.Minute, Expect: []string{"accepted", "rejected", "witness:end"}},
 			),
